@@ -2,6 +2,8 @@
 recorded at the file seam: bytes before each write, bytes written, attributed to codemods by the
 documented progress marker)."""
 import copy
+import io
+import tokenize
 
 from simbox import gen as G
 from simbox import world as W
@@ -19,6 +21,8 @@ def input_class(exp, path):
             lay = f.get("layout") or {}
             if lay.get("bom"):
                 return "py:bom"
+            if lay.get("cookie"):
+                return "py:cookie:" + lay["cookie"]
             if lay.get("exotic"):
                 return "exotic:" + lay["exotic"]
             if lay.get("eol") == "cr":
@@ -33,7 +37,7 @@ def input_class(exp, path):
 class C03(Check):
     id = "C03"
     level = "exploration"
-    rule = ("experiment = generated project (sources in LF/CRLF/no-final-newline/BOM/non-ASCII/tabs layouts, a labelled class with "
+    rule = ("experiment = generated project (sources in LF/CRLF/no-final-newline/BOM/non-ASCII/tabs/declared-latin-1 layouts, a labelled class with "
             "exotic separators - form feed, VT, NEL, U+2028, lone CR -, txt/html/xml files, dependency manifests of the four kinds) x "
             "codemod sequence (1-6, biased to sequences touching the same file/line/manifest, incl. plugin regex/XML pipelines and "
             "dependency-adding codemods) in a real run with 1-8 workers, optionally with a manifest that cannot be opened for writing; oracle per write event: patch(changeset.diff, bytes before "
@@ -57,6 +61,12 @@ class C03(Check):
                          world_spec={"files": [{"path": "pkg/a.py", "snippets": [fstr], "layout": {"bom": True}}]}))
         exps.append(dict(base, kind="fixed:bom-offset", include=["pixee:python/remove-unnecessary-f-str"],
                          world_spec={"files": [{"path": "pkg/a.py", "snippets": [fstr], "layout": {"bom": True, "offset": 5}}]}))
+        # sources that declare a non-UTF-8 encoding (left alone and listed as failed on the pinned tree; whatever is written
+        # to such a file must be explained by the diff when both sides are read in the declared encoding)
+        for codec in ("latin-1", "cp1252"):
+            exps.append(dict(base, kind="fixed:cookie-" + codec, include=["pixee:python/remove-unnecessary-f-str", "pixee:python/url-sandbox"],
+                             world_spec={"files": [{"path": "pkg/a.py", "snippets": [fstr], "layout": {"cookie": codec}},
+                                                   {"path": "pkg/b.py", "snippets": [fstr], "layout": {}}]}))
         names = {m["name"]: m["idx"] for m in W.manifests()}
         for mname, fname in (("req-crlf", "requirements.txt"), ("pyproject-crlf", "pyproject.toml"), ("setuppy-crlf", "setup.py"),
                              ("setupcfg-crlf", "setup.cfg"), ("pyproject-poetry-no-deps", "pyproject.toml")):
@@ -175,8 +185,15 @@ class C03(Check):
                     bt = before.decode("utf-8")
                     at = after.decode("utf-8")
                 except UnicodeDecodeError:
-                    add("written-bytes-not-utf8", f"{cid}:{cls}", {"codemod": cid, "path": p})
-                    continue
+                    # a source with a PEP 263 cookie: both sides are read the way the file declares itself, so a write in
+                    # another encoding than the declared one shows up as text that the diff does not explain
+                    try:
+                        codec = tokenize.detect_encoding(io.BytesIO(before).readline)[0]
+                        bt = before.decode(codec)
+                        at = after.decode(codec)
+                    except (UnicodeDecodeError, SyntaxError, LookupError):
+                        add("written-bytes-not-decodable", f"{cid}:{cls}", {"codemod": cid, "path": p})
+                        continue
                 checked += 1
                 try:
                     patched = apply_unified(cs.get("diff", ""), bt)
